@@ -82,6 +82,17 @@ impl GenSpec {
     }
 }
 
+/// fill_bytes into a destination slice that starts at a varying offset from an 8-byte boundary
+/// (the API takes any &mut [u8]); the offset is a function of the length only
+pub fn fill_unaligned(g: &mut dyn Gen, n: usize) -> Vec<u8> {
+    let off = (n / 3 + n) % 8;
+    let mut backing = vec![0xA5u8; n + 16];
+    let base = backing.as_ptr() as usize;
+    let start = (8 - base % 8) % 8 + off;
+    g.fill(&mut backing[start..start + n]);
+    backing[start..start + n].to_vec()
+}
+
 /// apply one operation; jumps return `None`
 pub fn apply(g: &mut dyn Gen, op: &Op) -> Option<Val> {
     match op {
@@ -90,13 +101,7 @@ pub fn apply(g: &mut dyn Gen, op: &Op) -> Option<Val> {
         Op::Fill(n) => {
             // the destination slice starts at a varying offset from an 8-byte boundary (the API
             // takes any &mut [u8]); the offset is a function of the length only
-            let off = (*n / 3 + *n) % 8;
-            let mut backing = vec![0xA5u8; *n + 8];
-            let base = backing.as_ptr() as usize;
-            let start = (8 - base % 8) % 8 + off;
-            let start = if start + *n <= backing.len() { start } else { off };
-            g.fill(&mut backing[start..start + *n]);
-            Some(Val::Bytes(backing[start..start + *n].to_vec()))
+            Some(Val::Bytes(fill_unaligned(g, *n)))
         }
         Op::Jump => {
             g.jump();
